@@ -51,6 +51,9 @@ class Oracle:
         crypto.register_random_bytes(self.saved[1])
 
 
+FRESH_KEY = bytes([0xA5]) * 16          # what random_bytes(16) returns while a file is read (Driver: `freshKey`)
+
+
 def parse_int(s):
     return -int(s[1:]) if s.startswith("n") else int(s)
 
@@ -213,14 +216,16 @@ def show_file(f):
 @op("bec2.read")
 @guard
 def bec2_read(chk, es, b):
-    f = Bec2File.read_file(io.StringIO(b3.to_text(unhx(b))), parse_encs(es), chk == "1")
+    with Oracle((), FRESH_KEY):          # `session_key or random_bytes(16)` in the constructor the reader calls
+        f = Bec2File.read_file(io.StringIO(b3.to_text(unhx(b))), parse_encs(es), chk == "1")
     return "ok " + show_file(f)
 
 
 @op("bec2.readtext")
 @guard
 def bec2_readtext(chk, es, t):
-    f = Bec2File.read_file(io.StringIO(b3.parse_str(t)), parse_encs(es), chk == "1")
+    with Oracle((), FRESH_KEY):
+        f = Bec2File.read_file(io.StringIO(b3.parse_str(t)), parse_encs(es), chk == "1")
     return "ok " + b3.show_comments(f.bf3file.comments) + " " + show_file(f)
 
 
@@ -829,6 +834,11 @@ def prop_c09(sel, d, eph, k, explicit):
         encs = [EccEncryptor(sel, crypto.create_public_ecc_key_from_der_fmt(pub_der))] if explicit == "1" else []
         if explicit != "1":
             return "ok n/a"
+        # recipients of the other selectors (the published keys) and a security-code encryptor stand before / behind the
+        # one this block is for: the block must still be addressed to the key of ITS selector
+        others = [EccEncryptor(s2) for s2 in range(4) if s2 != sel] + [ConfigSecurityCodeEncryptor(bytes(8))]
+        cut = eph % (len(others) + 1)
+        encs = others[:cut] + encs + others[cut:]
         raw = InitEccAuthBlock(sel).pack(key, encs)
     if raw[0] != sel or raw[1] != 4 or len(raw) != 2 + 64 + 16:
         return f"FAIL block is not selector, 04, X, Y, 16 bytes ciphertext (len {len(raw)})"
